@@ -46,11 +46,14 @@ def tagged_buffer(E: int, S: int, kind: str, masks: bool):
                          action_masks=(like(np.zeros((3,), np.int32)) if masks else None), returns=t, advantages=t)
 
 
-def row_codes(buf, i=None) -> list:
+ALL_FIELDS = ("observations", "actions", "rewards", "log_probs", "values", "returns", "advantages", "states", "action_masks")
+
+
+def row_codes(buf, i=None, fields=ALL_FIELDS) -> list:
     """tags found in every leaf element of every field of sample i of a flat buffer (dones excluded: boolean)"""
     out = []
     b = buf if i is None else jax.tree.map(lambda x: x[i], buf)
-    for fld in ("observations", "actions", "rewards", "log_probs", "values", "returns", "advantages", "states", "action_masks"):
+    for fld in fields:
         for x in jax.tree.leaves(getattr(b, fld)):
             out += [int(round(float(v))) for v in np.asarray(x).reshape(-1)]
     return out
@@ -66,6 +69,14 @@ def record_api(E, S, B, kind, masks, seeds) -> dict:
     N = E * S
     flat = buf.flatten_axes()
     evs = [dict(ev="flatten", rows=rows_of(flat, flat.rewards.shape[0]))]
+    # the rollout as the learners receive it: after the real advantage estimation (per environment stream), which must hand on every
+    # other field of every sample - the mask and the policy state included
+    est = (lambda b: b.compute_returns_and_advantages(jnp.asarray(0.0), 0.5, 0.5))
+    buf2 = jax.vmap(est)(buf) if E > 1 else est(buf)
+    other = tuple(f for f in ALL_FIELDS if f not in ("returns", "advantages"))
+    host2 = jax.device_get(buf2.flatten_axes())
+    width = len(row_codes(jax.device_get(flat), 0, other))
+    evs.append(dict(ev="estimate", width=width, rows=[row_codes(host2, i, other) for i in range(N)]))
     for seed in seeds:
         k = jr.key(seed)
         idx = np.asarray(flat.batch_indices(B, key=k))
